@@ -1,6 +1,6 @@
 ----------------------------- MODULE FragTrace -----------------------------
 (* Monitor for the `frag` world (property C12).  Rules:
-   F1 every frame fits the MTU; fragment payloads are multiples of 8 except the last
+   F1 every frame fits the MTU; fragment payloads are multiples of 8 except the last; K2 valid header checksums
    F2 the fragments of one datagram carry exactly its bytes: offsets consecutive from 0, MF only on non-final
       fragments, final offset+length = datagram length, no byte differs from the original (pd = -1)
    F3 what the receiver's socket hands out is exactly one original datagram (size and content)
@@ -11,7 +11,7 @@ EXTENDS Integers, Sequences, FiniteSets, TLC, Json, IOUtils
 Rec == ndJsonDeserialize(IOEnv.TRACE)
 VARIABLES l, run, cfg, viol, hits, nruns, snd, done, acc, slots, due, got, refused
 vars == <<l, run, cfg, viol, hits, nruns, snd, done, acc, slots, due, got, refused>>
-Rules == {"F1", "F2", "F3", "F4", "F5", "PANIC"}
+Rules == {"F1", "F2", "F3", "F4", "F5", "K2", "PANIC"}
 Max(a, b) == IF a > b THEN a ELSE b
 Min(a, b) == IF a < b THEN a ELSE b
 Add(v, x) == IF Len(v) >= 24 THEN v ELSE Append(v, x)
@@ -34,7 +34,9 @@ Remove(s, i) == SubSeq(s, 1, i - 1) \o SubSeq(s, i + 1, Len(s))
 
 \* ---- sender side: fold over emitted frames; state a = [snd, done, v]
 SendStep(e, a, o) ==
-  LET f1 == IF "iplen" \in DOMAIN o /\ (o.iplen > cfg.mtu \/ (o.frag /\ o.mf /\ o.plen % 8 # 0)) THEN << <<l, "F1", e, o.iplen, o.plen>> >> ELSE <<>>
+  LET f1 == (IF "iplen" \in DOMAIN o /\ (o.iplen > cfg.mtu \/ (o.frag /\ o.mf /\ o.plen % 8 # 0)) THEN << <<l, "F1", e, o.iplen, o.plen>> >> ELSE <<>>)
+            \* K2 (C08 / C10): every emitted packet, fragments included, has a valid header checksum and consistent lengths
+            \o (IF "hcs" \in DOMAIN o /\ ~(o.hcs /\ o.wf) THEN << <<l, "K2", e, o.foff, o.mf>> >> ELSE <<>>)
   IN IF "unparsed" \in DOMAIN o THEN [a EXCEPT !.v = @ \o << <<l, "F2", e, "unparsed">> >>]
      ELSE IF o.did < 0 THEN [a EXCEPT !.v = @ \o f1]
      ELSE IF ~o.frag THEN
